@@ -1,8 +1,133 @@
-/- line-protocol engine `core` (stub: answers bad-op until the engine is built) -/
+/- line-protocol engine `core`: the core-language evaluator (C01, C02, C03, C06, C07, C08).
+
+Request:  core run <depth|-> <calls|-> <rec|-> <tco 0|1> <fuel> <program as one S-expression …>
+Response: <outcome> ; out=<line>|<line>… ; <name>=<dump> ; …
+  outcome = ok | viol:<kind> | stuck:<why> | oof
+-/
+import XrayModel.Core
+open XrayModel.Core
+namespace XrayDriver.CoreE
+
+inductive SExp where
+  | atom (s : String)
+  | list (xs : List SExp)
+  deriving Inhabited
+
+/-- tokenizer: parentheses and whitespace-separated atoms -/
+def tokenize (s : String) : List String :=
+  let rec go (cs : List Char) (cur : List Char) (acc : List String) : List String :=
+    match cs with
+    | [] => (if cur.isEmpty then acc else String.ofList cur.reverse :: acc).reverse
+    | c :: rest =>
+      if c == '(' || c == ')' then
+        let acc := if cur.isEmpty then acc else String.ofList cur.reverse :: acc
+        go rest [] (String.singleton c :: acc)
+      else if c == ' ' then
+        let acc := if cur.isEmpty then acc else String.ofList cur.reverse :: acc
+        go rest [] acc
+      else go rest (c :: cur) acc
+  go s.toList [] []
+
+/-- parse one S-expression from a token list using an explicit stack (no recursion on the tree) -/
+def parseSExp (toks : List String) : Option SExp :=
+  let rec go (toks : List String) (stack : List (List SExp)) : Option SExp :=
+    match toks with
+    | [] => match stack with
+        | [[x]] => some x
+        | _ => none
+    | "(" :: rest => go rest ([] :: stack)
+    | ")" :: rest => match stack with
+        | top :: below :: more => go rest ((SExp.list top.reverse :: below) :: more)
+        | _ => none
+    | t :: rest => match stack with
+        | top :: more => go rest ((SExp.atom t :: top) :: more)
+        | [] => none
+  go toks [[]]
+
+mutual
+  partial def toExpr : SExp → Option Expr
+    | .list [.atom "i", .atom n] => n.toInt?.map Expr.int
+    | .list [.atom "b", .atom "true"] => some (.bool true)
+    | .list [.atom "b", .atom "false"] => some (.bool false)
+    | .list [.atom "s"] => some (.str "")
+    | .list [.atom "s", .atom w] => some (.str (w.replace "_" " "))
+    | .list [.atom "v", .atom x] => some (.var x)
+    | .list (.atom "c" :: .atom f :: args) => (args.mapM toExpr).map (Expr.call f)
+    | .list (.atom "ce" :: f :: args) => do
+        let f' ← toExpr f
+        let as ← args.mapM toExpr
+        pure (.callE f' as)
+    | .list [.atom "lam", .list ps, .list ds, body] => do
+        let ps' ← ps.mapM toParam
+        let ds' ← ds.mapM toDecl
+        let b ← toExpr body
+        pure (.lam (.mk none ps' ds' b))
+    | .list (.atom "tup" :: es) => (es.mapM toExpr).map Expr.tup
+    | .list (.atom "arr" :: es) => (es.mapM toExpr).map Expr.arr
+    | .list [.atom "item", e, .atom n] => do
+        let e' ← toExpr e
+        let i ← n.toNat?
+        pure (.item e' i)
+    | _ => none
+  partial def toParam : SExp → Option Param
+    | .list [.atom "p", .atom n] => some (.mk n none)
+    | .list [.atom "pd", .atom n, d] => (toExpr d).map (fun d' => .mk n (some d'))
+    | _ => none
+  partial def toDecl : SExp → Option Decl
+    | .list [.atom "let", .atom x, e] => (toExpr e).map (Decl.letD x)
+    | .list [.atom "fn", .atom n, .list ps, .list ds, body] => do
+        let ps' ← ps.mapM toParam
+        let ds' ← ds.mapM toDecl
+        let b ← toExpr body
+        pure (.fnD (.mk (some n) ps' ds' b))
+    | _ => none
+end
+
+partial def dumpVal : Val → String
+  | .int n => s!"(int {n})"
+  | .bool b => s!"(bool {b})"
+  | .str s => "(str \"" ++ s ++ "\")"
+  | .tup vs => "(struct" ++ String.join (vs.map (fun v => " " ++ dumpVal v)) ++ ")"
+  | .arr vs => "(seq" ++ String.join (vs.map (fun v => " " ++ dumpVal v)) ++ ")"
+  | .clos .. => "(fn)"
+  | .err m => "(error \"" ++ m ++ "\")"
+
+def showViol : Viol → String
+  | .depth => "MaximumStackDepth"
+  | .calls => "MaximumUDCall"
+  | .recursion => "MaximumRecursion"
+
+def optNat (s : String) : Option (Option Nat) :=
+  if s == "-" then some none else s.toNat?.map some
+
+def coreRun (args : List String) : String :=
+  match args with
+  | d :: c :: r :: tco :: fuel :: rest =>
+    match optNat d, optNat c, optNat r, fuel.toNat?, parseSExp (tokenize (String.intercalate " " rest)) with
+    | some d', some c', some r', some fuel', some (.list (.atom "prog" :: ds)) =>
+      match ds.mapM toDecl with
+      | none => "bad-op"
+      | some decls =>
+        let cfg : Cfg := { depthLimit := d', callLimit := c', recLimit := r', tco := tco != "0" }
+        let (res, st) := runProgram fuel' cfg decls
+        let outs := "out=" ++ String.intercalate "|" st.out
+        match res with
+        | .ok fr =>
+            let binds := fr.env.reverse.map (fun (n, v) => n ++ "=" ++ dumpVal v)
+            String.intercalate " ; " (["ok", outs] ++ binds) ++ s!" ; calls={st.calls}"
+        | .error (.viol k) => "viol:" ++ showViol k ++ " ; " ++ outs
+        | .error (.stuck w) => "stuck:" ++ w ++ " ; " ++ outs
+        | .error .oof => "oof ; " ++ outs
+        | .error (.val _) => "stuck:value-as-error ; " ++ outs
+        | .error (.tail _) => "stuck:tail-escaped ; " ++ outs
+    | _, _, _, _, _ => "bad-op"
+  | _ => "bad-op"
+
+end XrayDriver.CoreE
+
 namespace XrayDriver
-
 def coreEngine (f : String) (args : List String) : String :=
-  match f, args with
-  | _, _ => "bad-op"
-
+  match f with
+  | "run" => CoreE.coreRun args
+  | _ => "bad-op"
 end XrayDriver
